@@ -1,6 +1,27 @@
 From Slsk Require Import Base.Tac.
-From SlskGen Require Import CharTable.
+From SlskGen Require Import CharTable SharesGen.
 From Slsk Require Import C07.Model C07.Proofs C08.Model.
+
+(* ------------------------------------------------------------------ the regenerated decisions (SlskGen.SharesGen): equations by
+   computation that stop compiling when the source drops a check, reorders one or passes other arguments *)
+Lemma search_reply_eq : forall s c user qs, search_reply s c user qs =
+  if negb (has_session c) then None else if mem_str user (blocked_searches c) then None
+  else let r := query_split s c user qs in match fst r, snd r with [], [] => None | _, _ => Some r end.
+Proof. reflexivity. Qed.
+Lemma lookup_as_eq : forall b s c user rp, In b [add_upload_lookup_with_user; queue_existing_lookup_with_user; request_existing_lookup_with_user] ->
+  lookup_as b s c user rp = lookup_item s c user rp.
+Proof. intros b s c user rp [H | [H | [H | []]]]; subst b; reflexivity. Qed.
+Lemma blocked_first_eq : forall x, (queue_blocked_check_first && x = x) /\ (request_blocked_check_first && x = x).
+Proof. intros x. split; reflexivity. Qed.
+Lemma first_reason_eq : forall s c t, first_reason s c t =
+  if eqb_opt eqb_areason (tabort t) (Some Requested) then Some Requested
+  else if mem_str (tuser t) (blocked_uploads c) then Some Blocked
+  else if negb (is_found (lookup_item s c (tuser t) (tpath t))) then Some NotShared else None.
+Proof.
+  intros s c t. unfold first_reason.
+  destruct (eqb_opt eqb_areason (tabort t) (Some Requested)), (mem_str (tuser t) (blocked_uploads c)),
+           (negb (is_found (lookup_item s c (tuser t) (tpath t)))); reflexivity.
+Qed.
 
 (* ------------------------------------------------------------------ visible / locked split *)
 
@@ -60,6 +81,38 @@ Proof.
   - apply (locked_not_entitled (run ops) c0 user _ x (owner_ok_run ops OK) H).
 Qed.
 
+(* ------------------------------------------------------------------ shares listing / directory contents *)
+
+Lemma shares_visible_entitled : forall s c user x, In x (shares_visible s c user) ->
+  exists d, In d (listed s) /\ In x (ditems d) /\ dir_locked (friends c) d user = false.
+Proof.
+  intros s c0 user x H. unfold shares_visible, shares_visible_dirs in H. apply in_flat_map in H. destruct H as [d [Hd Hx]].
+  apply filter_In in Hd. destruct Hd as [Hd L]. apply negb_true_iff in L. exists d. auto.
+Qed.
+Lemma shares_locked_locked : forall s c user x, In x (shares_locked s c user) ->
+  exists d, In d (listed s) /\ In x (ditems d) /\ dir_locked (friends c) d user = true.
+Proof.
+  intros s c0 user x H. unfold shares_locked, shares_locked_dirs in H. apply in_flat_map in H. destruct H as [d [Hd Hx]].
+  apply filter_In in Hd. destruct Hd as [Hd L]. exists d. auto.
+Qed.
+(* every held file is listed, in exactly one of the two parts *)
+Lemma shares_complete : forall s c user d x, In d (listed s) -> In x (ditems d) ->
+  In x (shares_visible s c user) \/ In x (shares_locked s c user).
+Proof.
+  intros s c0 user d x Hd Hx. destruct (dir_locked (friends c0) d user) eqn:L.
+  - right. apply in_flat_map. exists d. split; [apply filter_In; auto | assumption].
+  - left. apply in_flat_map. exists d. split; [apply filter_In; rewrite L; auto | assumption].
+Qed.
+
+Definition ops_f28 : list op := [Add [w_d] (c [97]) Friends []; Scan [w_d] [([w_d; w_sing], 5%N)]].
+(* F28: the directory-contents reply lists the files of a friends-only directory whoever asks *)
+Lemma directory_reply_refuted : exists ops c user rd x d,
+  In x (directory_reply (run ops) rd) /\ In d (listed (run ops)) /\ In x (ditems d) /\ dir_locked (friends c) d user = true.
+Proof.
+  exists ops_f28, cfg0, u1, (AT :: AT :: c [97]), (mkItem 0 [w_d] [] w_sing 5%N), (mkDir 0 [w_d] (c [97]) Friends [] [mkItem 0 [w_d] [] w_sing 5%N]).
+  split; [vm_compute; left; reflexivity|]. split; [vm_compute; left; reflexivity|]. split; [left; reflexivity|]. vm_compute. reflexivity.
+Qed.
+
 (* ------------------------------------------------------------------ excluded phrases *)
 
 Lemma excluded_phrases : forall s c user qs x ph,
@@ -67,7 +120,7 @@ Lemma excluded_phrases : forall s c user qs x ph,
   In ph (phrases c) -> substring (lower_s ph) (lower_s (qpath x)) = false.
 Proof.
   intros s c0 user qs x ph H Hp. unfold query_split in H. apply split_sub in H.
-  apply query_sound in H. destruct H as [_ [_ H]]. unfold phrase_free in H. rewrite forallb_forall in H.
+  apply query_sound in H. destruct H as [_ [_ H]]. rewrite phrase_free_eq in H. rewrite forallb_forall in H.
   specialize (H ph Hp). apply negb_true_iff in H. exact H.
 Qed.
 
@@ -78,26 +131,27 @@ Definition w_SING := c [83;73;78;71].
 Lemma search_block : forall s c user qs,
   mem_str user (blocked_searches c) = true \/ has_session c = false -> search_reply s c user qs = None.
 Proof.
-  intros s c user qs [H | H]; unfold search_reply; [|rewrite H; reflexivity].
+  intros s c user qs [H | H]; rewrite search_reply_eq; [|rewrite H; reflexivity].
   destruct (negb (has_session c)); [reflexivity|]. rewrite H. reflexivity.
 Qed.
 
 (* ------------------------------------------------------------------ upload requests *)
 
-Lemma lookup_dirs_found : forall s c user rp ds x, lookup_dirs s c user rp ds = Found x ->
+Lemma lookup_dirs_found : forall s c user rp ds x, user <> [] -> lookup_dirs s c user rp ds = Found x ->
   item_locked s (friends c) user x = false /\ exists d, In d ds /\ In x (ditems d).
 Proof.
-  induction ds as [|d ds IH]; intros x H; cbn [lookup_dirs] in H; [discriminate|].
+  intros s c user rp ds x Hu. revert x. induction ds as [|d ds IH]; intros x H; cbn [lookup_dirs] in H; [discriminate|].
   destruct (find (fun y => eqb_str (remote_path (owner_alias s y) y) rp) (ditems d)) as [y|] eqn:F.
-  - destruct (item_locked s (friends c) user y) eqn:L; [discriminate|]. inv H. split; [assumption|].
+  - change cache_lookup_checks_lock with true in H. destruct user as [|u0 us]; [contradiction|]. cbn [nonempty andb] in H.
+    destruct (item_locked s (friends c) (u0 :: us) y) eqn:L; [discriminate|]. inv H. split; [assumption|].
     exists d. split; [left; reflexivity|]. apply find_some in F. tauto.
   - destruct (IH x H) as [L [d' [Hd Hx]]]. split; [assumption|]. exists d'. split; [right; assumption|assumption].
 Qed.
 
-Lemma lookup_found_entitled : forall s c user rp x, lookup_item s c user rp = Found x ->
+Lemma lookup_found_entitled : forall s c user rp x, user <> [] -> lookup_item s c user rp = Found x ->
   entitled s c user x = true /\ exists d, In d (listed s) /\ In x (ditems d).
 Proof.
-  intros s c user rp x H. apply lookup_dirs_found in H. destruct H as [L E]. split; [|assumption].
+  intros s c user rp x Hu H. apply lookup_dirs_found in H; [|assumption]. destruct H as [L E]. split; [|assumption].
   unfold entitled. rewrite L. reflexivity.
 Qed.
 
@@ -121,7 +175,8 @@ Lemma queue_refused : forall s c ts user rp, refused s c user rp ->
   let r := on_transfer_queue s c ts user rp in
   snd r = Some FNotShared /\ length (fst r) = length ts /\ (forall t, In t (fst r) -> In t ts \/ tst t = Failed).
 Proof.
-  intros s c ts user rp H. unfold on_transfer_queue. destruct (mem_str user (blocked_uploads c)) eqn:B.
+  intros s c ts user rp H. unfold on_transfer_queue. rewrite (proj1 (blocked_first_eq _)), !lookup_as_eq by (cbn; auto).
+  destruct (mem_str user (blocked_uploads c)) eqn:B.
   - cbn. auto.
   - destruct H as [H | H]; [congruence|]. rewrite H. destruct (find_transfer ts user rp); cbn.
     + split; [reflexivity|]. split; [apply update_length|]. apply update_fail_in.
@@ -132,7 +187,8 @@ Lemma request_refused : forall s c ts user rp, refused s c user rp ->
   let r := on_transfer_request s c ts user rp in
   snd r = Some FNotShared /\ length (fst r) = length ts /\ (forall t, In t (fst r) -> In t ts \/ tst t = Failed).
 Proof.
-  intros s c ts user rp H. unfold on_transfer_request. destruct (mem_str user (blocked_uploads c)) eqn:B.
+  intros s c ts user rp H. unfold on_transfer_request. rewrite (proj2 (blocked_first_eq _)), !lookup_as_eq by (cbn; auto).
+  destruct (mem_str user (blocked_uploads c)) eqn:B.
   - cbn. auto.
   - destruct H as [H | H]; [congruence|]. rewrite H. destruct (find_transfer ts user rp); cbn.
     + split; [reflexivity|]. split; [apply update_length|]. apply update_fail_in.
@@ -140,19 +196,20 @@ Proof.
 Qed.
 
 (* an upload is only ever created for an item that the code considers unlocked for the user and that a listed directory holds *)
-Lemma created_only_if_entitled : forall s c ts user rp,
+Lemma created_only_if_entitled : forall s c ts user rp, user <> [] ->
   length (fst (on_transfer_queue s c ts user rp)) > length ts \/ length (fst (on_transfer_request s c ts user rp)) > length ts ->
   mem_str user (blocked_uploads c) = false /\
   exists x, lookup_item s c user rp = Found x /\ entitled s c user x = true /\ exists d, In d (listed s) /\ In x (ditems d).
 Proof.
-  intros s c ts user rp H.
+  intros s c ts user rp Hu H.
   assert (G : mem_str user (blocked_uploads c) = false /\ is_found (lookup_item s c user rp) = true).
   { unfold on_transfer_queue, on_transfer_request in H.
+    rewrite (proj1 (blocked_first_eq _)), (proj2 (blocked_first_eq _)), !lookup_as_eq in H by (cbn; auto).
     destruct (mem_str user (blocked_uploads c)); [cbn in H; lia|]. split; [reflexivity|].
     destruct (is_found (lookup_item s c user rp)); [reflexivity|].
     destruct (find_transfer ts user rp); cbn in H; rewrite ?update_length in H; lia. }
   destruct G as [G1 G2]. split; [assumption|]. destruct (lookup_item s c user rp) as [x| |] eqn:L; try discriminate.
-  exists x. split; [reflexivity|]. apply (lookup_found_entitled s c user rp x L).
+  exists x. split; [reflexivity|]. apply (lookup_found_entitled s c user rp x Hu L).
 Qed.
 
 (* ------------------------------------------------------------------ the shares-changed cycle *)
@@ -171,9 +228,9 @@ Definition Bof (c : cfg) (t : transfer) := mem_str (tuser t) (blocked_uploads c)
 Definition Fof (s : state) (c : cfg) (t : transfer) := is_found (lookup_item s c (tuser t) (tpath t)).
 
 Lemma first_reason_fr : forall s c t, first_reason s c t = fr (Bof c t) (Fof s c t) (tabort t).
-Proof. reflexivity. Qed.
+Proof. intros. apply first_reason_eq. Qed.
 Lemma cycle_one_cyc : forall s c t, cycle_one s c t = cyc (Bof c t) (Fof s c t) t.
-Proof. reflexivity. Qed.
+Proof. intros. unfold cycle_one, cyc. rewrite first_reason_fr. reflexivity. Qed.
 Lemma cyc_key : forall B F t, tuser (cyc B F t) = tuser t /\ tpath (cyc B F t) = tpath t.
 Proof.
   intros B F [u p st ab fl]. unfold cyc, fr, do_abort, do_queue, unfinished. cbn [tuser tpath tst tabort tfail].
